@@ -150,11 +150,13 @@ pub async fn restore(
             }
             Kind::Symlink => {
                 monitor.count(Counter::Symlinks, 1);
+                // Remember it even if it can't be created: when overwriting an earlier restore
+                // the link is already there, and entries below it must still not be followed.
+                restored_symlinks.insert(entry.apath.clone());
                 if let Err(err) = restore_symlink(&path, &entry) {
                     monitor.error(err);
                     continue;
                 }
-                restored_symlinks.insert(entry.apath.clone());
             }
             Kind::Unknown => {
                 monitor.error(Error::InvalidMetadata {
